@@ -16,8 +16,10 @@ import (
 	"math/rand"
 	"net"
 	"os"
+	"runtime"
 	"strings"
 	"sync"
+	"sync/atomic"
 	"testing"
 	"testing/synctest"
 	"time"
@@ -42,8 +44,49 @@ const (
 var deadlines = []time.Duration{10 * time.Second, 20 * time.Second}
 
 type step struct {
-	V string `json:"v"`
-	R int    `json:"r"`
+	V   string   `json:"v"`
+	R   int      `json:"r"`
+	Val []string `json:"val"` // V_* variants: the header value as a sequence of fragments ("xff" = byte 0xFF)
+}
+
+func (st step) value() string {
+	var sb strings.Builder
+	for _, f := range st.Val {
+		if f == "xff" {
+			sb.WriteByte(0xff)
+		} else {
+			sb.WriteString(f)
+		}
+	}
+	return sb.String()
+}
+
+// tracer buffers the events of one behaviour and appends them to the file when the behaviour is over, so that
+// a crash of the process loses nothing but the behaviour that caused it.
+type tracer struct {
+	mu  sync.Mutex
+	f   *os.File
+	buf bytes.Buffer
+	N   int
+}
+
+func (t *tracer) Emit(e ev) {
+	b, err := json.Marshal(e)
+	if err != nil {
+		panic(err)
+	}
+	t.mu.Lock()
+	t.buf.Write(b)
+	t.buf.WriteByte('\n')
+	t.N++
+	t.mu.Unlock()
+}
+
+func (t *tracer) Flush() {
+	t.mu.Lock()
+	t.f.Write(t.buf.Bytes())
+	t.buf.Reset()
+	t.mu.Unlock()
 }
 
 type beh struct {
@@ -78,6 +121,9 @@ func (s *rpcState) finish(start time.Time, err error) {
 	st, ok := status.FromError(err)
 	s.ok = ok
 	s.code = int(st.Code())
+	if s.code < 0 || s.code > 98 { // out-of-range codes (grpc-status "-1"): keep them apart from the sentinels
+		s.code = 98
+	}
 	s.tend = time.Since(start)
 }
 
@@ -159,10 +205,22 @@ func rawFrameLen(typ http2.FrameType, flags byte, sid uint32, n int, payload []b
 }
 
 // emit writes frame variant v addressed to stream sid on p.  Returns false for "close the connection".
-func emit(p *rawh2.Peer, v string, sid uint32) bool {
+func emit(p *rawh2.Peer, st step, sid uint32) bool {
 	const okCT = "application/grpc"
 	msg := rawh2.GrpcFrame([]byte("ok"), false)
+	v := st.V
 	switch v {
+	case "V_tmsg":
+		p.WriteHeaders(sid, true, ":status", "200", "content-type", okCT, "grpc-status", "5", "grpc-message", st.value())
+	case "V_hmsg":
+		p.WriteHeaders(sid, false, ":status", "200", "content-type", okCT, "grpc-message", st.value())
+	case "V_tstatus":
+		p.WriteHeaders(sid, true, ":status", "200", "content-type", okCT, "grpc-status", st.value())
+	case "V_tdetails":
+		d := map[string]string{"undecodable": "!!not*base64!!", "garbage": "////", "mismatch": "CAM"}[st.value()]
+		p.WriteHeaders(sid, true, ":status", "200", "content-type", okCT, "grpc-status", "5", "grpc-status-details-bin", d)
+	case "V_tct":
+		p.WriteHeaders(sid, true, ":status", "200", "content-type", st.value(), "grpc-status", "5")
 	case "H_ok":
 		p.WriteHeaders(sid, false, ":status", "200", "content-type", okCT)
 	case "H_trail0":
@@ -378,7 +436,7 @@ func mutate(frames [][]byte, n int, rng *rand.Rand) ([]byte, []string) {
 }
 
 // ---------------------------------------------------------------------------------------------
-func runBeh(t *testing.T, b beh, idx int, seed int64, tr *vlib.Trace) {
+func runBeh(t *testing.T, b beh, idx int, seed int64, tr *tracer) {
 	tr.Emit(ev{"ev": "reset", "b": idx, "nrpc": b.NRpc, "mut": b.Mut})
 	synctest.Test(t, func(t *testing.T) {
 		start := time.Now()
@@ -481,7 +539,7 @@ func runBeh(t *testing.T, b beh, idx int, seed int64, tr *vlib.Trace) {
 			bp.Fr.AllowIllegalWrites = true
 			closeAfter := false
 			for _, st := range b.Steps {
-				if !emit(bp, st.V, sidFor(st.R)) {
+				if !emit(bp, st, sidFor(st.R)) {
 					closeAfter = true
 				}
 			}
@@ -498,7 +556,7 @@ func runBeh(t *testing.T, b beh, idx int, seed int64, tr *vlib.Trace) {
 		} else {
 			for _, st := range b.Steps {
 				time.Sleep(time.Second)
-				if !emit(p, st.V, sidFor(st.R)) {
+				if !emit(p, st, sidFor(st.R)) {
 					p.Conn.Close()
 				}
 				synctest.Wait()
@@ -506,7 +564,11 @@ func runBeh(t *testing.T, b beh, idx int, seed int64, tr *vlib.Trace) {
 				sv.mu.Lock()
 				dead := sv.dead
 				sv.mu.Unlock()
-				tr.Emit(ev{"ev": "frame", "v": st.V, "r": st.R, "done": done, "code": code, "dead": dead})
+				e := ev{"ev": "frame", "v": st.V, "r": st.R, "done": done, "code": code, "dead": dead}
+				if strings.HasPrefix(st.V, "V_") {
+					e["val"] = st.Val
+				}
+				tr.Emit(e)
 			}
 		}
 		// past every deadline
@@ -547,19 +609,41 @@ func TestVerifC11Replay(t *testing.T) {
 	if err != nil {
 		t.Fatal(err)
 	}
-	tr, err := vlib.NewTrace(os.Getenv("VERIF_OUT"))
+	f, err := os.Create(os.Getenv("VERIF_OUT"))
 	if err != nil {
 		t.Fatal(err)
 	}
-	defer tr.Close()
+	defer f.Close()
+	tr := &tracer{f: f}
 	seed := int64(vlib.EnvInt("VERIF_SEED", 1))
 	base := vlib.EnvInt("VERIF_BASE", 0)
+	// watchdog (real time, outside every bubble): a behaviour that makes no progress for VERIF_HANG_S seconds has
+	// wedged the client (e.g. goroutines blocked on a mutex, which testing/synctest cannot see): report it and stop
+	var cur, since atomic.Int64
+	since.Store(time.Now().UnixNano())
+	limit := time.Duration(vlib.EnvInt("VERIF_HANG_S", 60)) * time.Second
+	go func() {
+		for {
+			time.Sleep(500 * time.Millisecond)
+			if time.Since(time.Unix(0, since.Load())) > limit {
+				fmt.Printf("\nVERIF_HANG %d\n", cur.Load())
+				buf := make([]byte, 1<<20)
+				os.Stdout.Write(buf[:runtime.Stack(buf, true)])
+				os.Exit(3)
+			}
+		}
+	}()
 	for i, ln := range lines {
 		var b beh
 		if err := json.Unmarshal(ln, &b); err != nil {
 			t.Fatal(err)
 		}
+		cur.Store(int64(base + i))
+		since.Store(time.Now().UnixNano())
+		fmt.Printf("VERIF_BEGIN %d\n", base+i)
 		runBeh(t, b, base+i, seed, tr)
+		tr.Flush()
 	}
+	since.Store(time.Now().Add(time.Hour).UnixNano())
 	fmt.Printf("VERIF_SUMMARY {\"behaviours\":%d,\"events\":%d}\n", len(lines), tr.N)
 }
